@@ -13,7 +13,8 @@
 //!           message, and the time stays inside `BUDGET_BASE_MS + n^2 * BUDGET_NS_PER_BYTE2` (n = bytes loaded).
 //!
 //! request : C08.lex \t <hex bytes> \t <raw token lengths, `e` suffix = Endline>   (model diff: TokenStream bookkeeping)
-//! request : C08.cond \t <directive letters>                                      (model diff: ConditionChain)
+//! request : C08.defscan | C08.textscan \t <definition tokens> \t <condition / text tokens> \t <scenario hex>   (model diff: macro scan)
+//! request : C08.cond \t <directive letters, `(`..`)` = an included file>           (model diff: ConditionChain)
 //!
 //! Process structure: the supervisor (this process) writes request batches to files and spawns worker
 //! processes (`harness c08 --requests FILE worker`); a worker runs its batch on a thread with an 8 MB stack
@@ -1019,25 +1020,53 @@ fn lex_case(bytes: &[u8], out: &mut Out, hist: &mut Hist) {
     out.case(&format!("C08.lex\t{}\t{}", hex(bytes), if script.is_empty() { "-".into() } else { script }), &obs, &oracle);
 }
 
-/// C08.cond: directive letters i/I (#if 1 / #if 0), d/D (#ifdef defined/undefined), l/L (#elif 1/0), e (#else), n (#endif), t (text line)
-fn cond_case(letters: &str, out: &mut Out, hist: &mut Hist) {
-    let mut src = String::from("#define DEF 1\n");
-    for (k, c) in letters.chars().enumerate() {
-        src.push_str(&match c {
-            'i' => "#if 1\n".to_string(),
-            'I' => "#if 0\n".to_string(),
-            'd' => "#ifdef DEF\n".to_string(),
-            'D' => "#ifdef UNDEF\n".to_string(),
-            'l' => "#elif 1\n".to_string(),
-            'L' => "#elif 0\n".to_string(),
-            'e' => "#else\n".to_string(),
-            'n' => "#endif\n".to_string(),
-            _ => format!("t{}\n", k),
-        });
+/// C08.cond: directive letters i/I (#if 1 / #if 0), d/D (#ifdef defined/undefined), l/L (#elif 1/0), e (#else), n (#endif),
+/// x (`#3`: a directive line that does not start with a name), `(`..`)` (`#include` of an in-memory file that holds the
+/// enclosed lines; the file of the `(` at index k is `h<k>.h`), anything else a text line `t<index>`.
+/// The source of one file; `pos` indexes the whole letter string.  `None` = unbalanced parentheses.
+fn cond_file_source(letters: &[char], pos: &mut usize, nested: bool, files: &mut Vec<(String, String)>) -> Option<String> {
+    let mut src = String::new();
+    loop {
+        let Some(&c) = letters.get(*pos) else {
+            return if nested { None } else { Some(src) };
+        };
+        let k = *pos;
+        *pos += 1;
+        match c {
+            ')' => return if nested { Some(src) } else { None },
+            '(' => {
+                let name = format!("h{}.h", k);
+                let inner = cond_file_source(letters, pos, true, files)?;
+                files.push((name.clone(), inner));
+                src.push_str(&format!("#include \"{}\"\n", name));
+            }
+            'i' => src.push_str("#if 1\n"),
+            'I' => src.push_str("#if 0\n"),
+            'd' => src.push_str("#ifdef DEF\n"),
+            'D' => src.push_str("#ifdef UNDEF\n"),
+            'l' => src.push_str("#elif 1\n"),
+            'L' => src.push_str("#elif 0\n"),
+            'e' => src.push_str("#else\n"),
+            'n' => src.push_str("#endif\n"),
+            'x' => src.push_str("#3\n"),
+            _ => src.push_str(&format!("t{}\n", k)),
+        }
     }
+}
+
+fn cond_case(letters: &str, out: &mut Out, hist: &mut Hist) {
+    let chars: Vec<char> = letters.chars().collect();
+    let mut files = Vec::new();
+    let mut pos = 0;
+    let Some(body) = cond_file_source(&chars, &mut pos, false, &mut files) else {
+        out.case(&format!("C08.cond\t{}", letters), "bad-request", "SKIP:unbalanced include parentheses");
+        return;
+    };
+    let src = format!("#define DEF 1\n{}", body);
+    files.push(("main.rssl".to_string(), src));
     let r = guard(|| {
         let mut sm = rssl::text::SourceManager::new();
-        let mut inc = MemFiles(vec![("main.rssl".to_string(), src.clone())]);
+        let mut inc = MemFiles(files.clone());
         match rssl::preprocess::preprocess("main.rssl", &mut sm, &mut inc, &[]) {
             Ok(tokens) => {
                 let ids: Vec<String> = tokens
@@ -1052,12 +1081,20 @@ fn cond_case(letters: &str, out: &mut Out, hist: &mut Hist) {
             Err(e) => {
                 use rssl::text::CompileErrorExt;
                 let msg = format!("{}", e.display(&sm));
-                let kind = if msg.contains("not enough #endif") {
+                let kind = if msg.is_empty() {
+                    "empty-diagnostic"
+                } else if msg.contains("not enough #endif") {
                     "not-finished"
                 } else if msg.contains("#else but with no matching") {
                     "else-not-matched"
                 } else if msg.contains("#endif but with no matching") {
                     "endif-not-matched"
+                } else if msg.contains("#else after #else") {
+                    "else-after-else"
+                } else if msg.contains("#elif after #else") {
+                    "elif-after-else"
+                } else if msg.contains("unknown preprocessing directive") {
+                    "unknown-command"
                 } else {
                     "other"
                 };
@@ -1066,10 +1103,18 @@ fn cond_case(letters: &str, out: &mut Out, hist: &mut Hist) {
         }
     });
     let (obs, oracle) = match r {
+        // the property's own words: the run ends in text or in a rendered (non-empty) diagnostic
+        Ok(o) if o == "err:empty-diagnostic" => (o, "FAIL:the preprocessor error renders to an empty string".to_string()),
         Ok(o) => (o, "ok".to_string()),
         Err(p) => (format!("panic:{}", p), format!("FAIL:panic {}", p)),
     };
     hist.add(&format!("cond={}", obs.split(':').next().unwrap_or("")));
+    if obs.starts_with("err:") {
+        hist.add(&format!("cond-{}", obs));
+    }
+    if letters.contains('(') {
+        hist.add("cond-with-include");
+    }
     out.case(&format!("C08.cond\t{}", letters), &obs, &oracle);
 }
 
@@ -1103,7 +1148,7 @@ fn defscan_case(spec_hex: &str, out: &mut Out, hist: &mut Hist) {
                 header.push_str(&format!(" {}\n", d));
             }
         }
-        "m" => {
+        "m" | "t" => {
             for d in &defs {
                 main.push_str("#define");
                 def_frags.push((0, main.len(), format!(" {}", d)));
@@ -1132,9 +1177,19 @@ fn defscan_case(spec_hex: &str, out: &mut Out, hist: &mut Hist) {
             }
         }
     }
-    main.push_str("#if");
-    let cond_frag = (0usize, main.len(), format!(" {}", cond));
-    main.push_str(&format!(" {}\n#endif\n", cond));
+    // placement `t`: the "condition" is ordinary text after the definitions (it may run over several lines: fix f08088c lets
+    // the invocation of a function-like macro continue on the next line); it is scanned without `apply_defined`
+    let text_mode = placement == "t";
+    let cond_frag = if text_mode {
+        let frag = (0usize, main.len(), format!("{}\n", cond));
+        main.push_str(&format!("{}\n", cond));
+        frag
+    } else {
+        main.push_str("#if");
+        let frag = (0usize, main.len(), format!(" {}", cond));
+        main.push_str(&format!(" {}\n#endif\n", cond));
+        frag
+    };
     // ---- base locations in registration order: entry file, API defines, header
     let mut bases: Vec<u32> = vec![0];
     let mut next = main.len() as u32 + 1;
@@ -1222,7 +1277,12 @@ fn defscan_case(spec_hex: &str, out: &mut Out, hist: &mut Hist) {
     };
     hist.add(&format!("defscan={}", obs.split(|c| c == ':' || c == ' ').take(2).collect::<Vec<_>>().join(":")));
     hist.add(&format!("defscan-placement={}", placement));
-    let req = format!("C08.defscan\t{}\t{}", if def_toks.is_empty() { "-".to_string() } else { def_toks.join("|") }, cond_toks);
+    let req = format!(
+        "{}\t{}\t{}",
+        if text_mode { "C08.textscan" } else { "C08.defscan" },
+        if def_toks.is_empty() { "-".to_string() } else { def_toks.join("|") },
+        cond_toks
+    );
     // the spec rides along as a comment field of the observation? no: requests must be replayable, so it is the
     // *tokens* that are the request; replay re-runs the model only.  The scenario text is kept in the oracle detail.
     let oracle = if oracle == "ok" { oracle } else { format!("{} scenario={}", oracle, spec_hex) };
@@ -1275,7 +1335,7 @@ pub fn run(args: &Args, out: &mut Out) {
                 }
             } else if let Some(rest) = line.strip_prefix("C08.cond\t") {
                 cond_case(rest, out, &mut hist);
-            } else if let Some(rest) = line.strip_prefix("C08.defscan\t") {
+            } else if let Some(rest) = line.strip_prefix("C08.defscan\t").or_else(|| line.strip_prefix("C08.textscan\t")) {
                 if let Some(spec) = rest.split('\t').nth(2) {
                     defscan_case(spec, out, &mut hist);
                 }
